@@ -145,7 +145,11 @@ def case_call(ctx, spec):
     data = interp.mk_frame(ds, {"a": [100.0 + i for i in range(len(ds))]})
     if spec.get("tz"):
         # exchange-local stamps: the periods are those of the wall clock the stamps show, whatever their UTC instants are
-        data.index = data.index.tz_localize(spec["tz"], nonexistent="shift_forward", ambiguous=True)
+        loc = data.index.tz_localize(spec["tz"], nonexistent="shift_forward", ambiguous=True)
+        # wall-clock stamps inside a daylight-saving switch have no unique instant: such an index stays naive (increasing unique dates are
+        # the well-formed input)
+        if loc.is_unique and loc.is_monotonic_increasing and all(a_.replace(tzinfo=None) == b_ for a_, b_ in zip(loc.to_pydatetime(), data.index.to_pydatetime())):
+            data.index = loc
     algo = getattr(bt.algos, kind)(**flags)
     s = bt.Strategy("s", [algo])
     b = bt.Backtest(s, data, progress_bar=False)
@@ -191,7 +195,7 @@ def case_call(ctx, spec):
         n_gap += 1
         if a2(FakeTarget(idx, cand)):
             raise Violation("%s(%s) fired on %s, which is not a date of the data %s" % (kind, flags, cand, [str(x) for x in idx]), signature="call:not-a-row")
-    labs = [kind, "eop" if flags.get("run_on_end_of_period") else "sop"] + (["gap_dates_probed"] if n_gap > 2 else []) + (["tz_aware_index"] if spec.get("tz") else [])
+    labs = [kind, "eop" if flags.get("run_on_end_of_period") else "sop"] + (["gap_dates_probed"] if n_gap > 2 else []) + (["tz_aware_index"] if idx.tz is not None else [])
     isoweeks = {r.isocalendar()[1] for r in real}
     if 53 in isoweeks or (1 in isoweeks and any(r.month == 12 for r in real)):
         labs.append("iso-week-53/1-straddle")
